@@ -35,7 +35,7 @@ func C17(c *Ctx) {
 	r.Rule("R17.2b", "each checkPermission helper is a predicate on its regulator parameter: every possibly-nil return lies behind an equality/role-answer edge that depends on that parameter.")
 	r.Rule("R17.2c", "at every checkPermission guard site of an entry the checked identity is CurrentCaller(); PermissionSpecific lists consist only of registered contract address constants.")
 	r.Rule("R17.4", "promoted plumbing (boltvm.Stub methods, bitxhub-core manager methods) must not be dispatchable: a dispatcher-level filter must dominate reflect.Value.Call in InvokeBVM, and the result type must be validated before the call.")
-	r.Rule("R17.5", "audit independence: the branch taken only when EnableAudit() is true contains no ledger write, balance change, cross-invoke with effects or caller guard (only audit event posts).")
+	r.Rule("R17.5", "audit independence: the branch taken only when EnableAudit() is true contains no ledger write, balance change, cross-invoke with effects or caller guard, and posts events of AUDIT_* types only.")
 	r.NotDecided = append(r.NotDecided, "correctness of role data beyond the index/record key agreement of R17.6; the cryptographic sender identity; value-level effects of guarded entries")
 
 	c.c17IndexAgreement()
@@ -149,7 +149,7 @@ func C17(c *Ctx) {
 	}
 
 	// R17.5
-	c.auditIndependence(m)
+	c.auditIndependence(m, "R17.5", false)
 }
 
 // guardWitness names the first guard edge of fn.
@@ -269,7 +269,7 @@ func (c *Ctx) checkPermSites(m *contractsModel, e *core.Entry) {
 }
 
 // auditIndependence implements R17.5.
-func (c *Ctx) auditIndependence(m *contractsModel) {
+func (c *Ctx) auditIndependence(m *contractsModel, rule string, eventsOnly bool) {
 	isAudit := core.IsStubCall("EnableAudit")
 	n := 0
 	for _, fn := range m.funcs {
@@ -287,8 +287,10 @@ func (c *Ctx) auditIndependence(m *contractsModel) {
 			if f.Negated {
 				tIdx, fIdx = 1, 0
 			}
-			onT := core.Reach([]core.Point{{B: b.Succs[tIdx], Idx: 0}}, nil, nil)
-			onF := core.Reach([]core.Point{{B: b.Succs[fIdx], Idx: 0}}, nil, nil)
+			// stop when the branch is reached again (loop back edge): the next iteration decides anew
+			again := func(in ssa.Instruction) bool { return in == ssa.Instruction(ifi) }
+			onT := core.Reach([]core.Point{{B: b.Succs[tIdx], Idx: 0}}, again, nil)
+			onF := core.Reach([]core.Point{{B: b.Succs[fIdx], Idx: 0}}, again, nil)
 			key := core.FnName(fn) + " audit-branch"
 			pos := c.P.Pos(ifi.Cond.Pos())
 			guardEdges := m.callerG.SuccessEdgesIn(fn)
@@ -299,20 +301,62 @@ func (c *Ctx) auditIndependence(m *contractsModel) {
 				}
 				ks := m.eff.InstrKinds(in)
 				for k := range ks {
-					if k != core.KEvent {
+					if k != core.KEvent && !eventsOnly {
 						bad = fmt.Sprintf("%s effect (%s) at %s only when audit is enabled", k, m.describeSink(in), c.P.Pos(in.Pos()))
 					}
 				}
-				if guardEdges[in.Block()] != nil && in == in.Block().Instrs[len(in.Block().Instrs)-1] {
+				if ks[core.KEvent] {
+					for _, et := range eventTypesOf(in, 0) {
+						if !strings.HasPrefix(et, "AUDIT_") {
+							bad = fmt.Sprintf("a %s event is posted at %s only when audit is enabled: consumers of that event (the executor's service cache, node membership, interchain delivery) then depend on the audit switch", et, c.P.Pos(in.Pos()))
+						}
+					}
+				}
+				if !eventsOnly && guardEdges[in.Block()] != nil && in == in.Block().Instrs[len(in.Block().Instrs)-1] {
 					bad = "caller guard evaluated only when audit is enabled at " + c.P.Pos(in.Pos())
 				}
 			}
 			if bad != "" {
-				c.R.Bad("R17.5", key, pos, bad)
+				c.R.Bad(rule, key, pos, bad)
 			} else {
-				c.R.OK("R17.5", key, pos, "audit-only region contains event posts only")
+				c.R.OK(rule, key, pos, "audit-only region posts AUDIT_* events only")
 			}
 		}
 	}
-	c.R.Floor("R17.5", "EnableAudit branches", n, 50)
+	c.R.Floor(rule, "EnableAudit branches", n, 50)
+}
+
+// eventTypesOf: the event-type constants (without the Event_ prefix) an instruction may post, through
+// module functions up to depth 3; "?" for a non-constant type.
+func eventTypesOf(in ssa.Instruction, depth int) []string {
+	call, ok := in.(ssa.CallInstruction)
+	if !ok {
+		return nil
+	}
+	o := core.CalleeObj(call)
+	if o != nil {
+		args := call.Common().Args
+		switch o.Name() {
+		case "PostInterchainEvent":
+			return []string{"INTERCHAIN"}
+		case "PostEvent":
+			if len(args) >= 2 {
+				if k := eventConst(args[len(args)-2]); k != "" {
+					return []string{strings.TrimPrefix(k, "Event_")}
+				}
+				return []string{"?"}
+			}
+		}
+	}
+	callee := core.StaticCallee(call)
+	if callee == nil || len(callee.Blocks) == 0 || depth > 3 || callee.Package() == nil || !core.InModulePath(callee.Package().Pkg.Path()) {
+		return nil
+	}
+	var out []string
+	for _, f := range core.WithClosures(callee) {
+		for _, c2 := range core.Calls(f) {
+			out = append(out, eventTypesOf(c2, depth+1)...)
+		}
+	}
+	return out
 }
